@@ -206,4 +206,51 @@ Section ReplaceSub.
         rewrite (Eval_functional _ _ _ _ _ HE HE0). exact Hv0.
       + apply Hsplice; [exact Hsv|apply Fwd2, HE].
   Qed.
+
+  (* every surviving gate keeps its value.  A gate x of c survives iff its (renamed) label is
+     still a gate and is not one of the replacement's own internal gates *)
+  Theorem replace_subcircuit_sem a a' :
+    (forall l, In l (inputs c) -> aval a' (rho l) = aval a l) ->
+    (forall b, (forall k, In k (dkeys imap) -> Eval c a k (aval b (rho k))) ->
+               forall k v, In k (dkeys omap) -> Eval c a k v -> Eval sub b (rho k) v) ->
+    forall x v, has_gate c x = true -> has_gate c' (rho x) = true ->
+      has_gate sub (rho x) = false \/ In (rho x) (dvals imap ++ dvals omap) ->
+      (Eval c' a' (rho x) v <-> Eval c a x v).
+  Proof.
+    intros Ha Heq x v Hx Hx' Hs.
+    destruct (replace_subcircuit_core a a' Ha Heq) as (bg & _ & _ & Hsurv & Hsem).
+    apply Hsem; [exact Hx|]. apply Hsurv; assumption.
+  Qed.
+
+  (* the truth table of the whole circuit is unchanged *)
+  Theorem replace_subcircuit_outputs_sem a a' :
+    (forall l, In l (inputs c) -> aval a' (rho l) = aval a l) ->
+    (forall b, (forall k, In k (dkeys imap) -> Eval c a k (aval b (rho k))) ->
+               forall k v, In k (dkeys omap) -> Eval c a k v -> Eval sub b (rho k) v) ->
+    outputs c' = map rho (outputs c) /\
+    forall vs, Forall2 (Eval c' a') (outputs c') vs <-> Forall2 (Eval c a) (outputs c) vs.
+  Proof.
+    intros Ha Heq.
+    destruct (replace_subcircuit_core a a' Ha Heq) as (bg & Ho & Hos & _ & Hsem).
+    split; [exact Ho|]. intros vs. rewrite Ho, <- Forall2_map_l.
+    split; intros HF; (eapply Forall2_impl_In; [exact HF|]); intros o v Hin Hv;
+      apply (Hsem o v (wf_outs c W o Hin) (Hos o Hin)); exact Hv.
+  Qed.
+
+  (* the renaming: every mapped gate gets its mapped label, nothing else is renamed *)
+  Theorem replace_subcircuit_rho :
+    (forall k v, In (k, v) (imap ++ omap) -> rho k = v) /\
+    (forall l, ~ In l (dkeys imap ++ dkeys omap) -> rho l = l).
+  Proof.
+    split; [|intros l Hl; apply ren_all_notkey; rewrite dkeys_app; exact Hl].
+    pose proof H as H'. unfold replace_subcircuit in H'.
+    binv H' u0 H0. binv H' u1 H1. binv H' u2 H2. binv H' u3 H3. binv H' u4 H4. binv H' u5 H5.
+    binv H' c1 Hc1. binv H' c2 Hc2.
+    destruct (nodupb (dkeys imap ++ dkeys omap)) eqn:Enk; [|discriminate]. apply nodupb_NoDup in Enk.
+    assert (HA : foldM ren_step (imap ++ omap) c = Ok c2).
+    { rewrite foldM_app. unfold ren_step. rewrite Hc1; simpl. exact Hc2. }
+    apply (ren_all_keys _ c c2 W); [rewrite dkeys_app; assumption| |exact HA].
+    intros k Hk; rewrite dkeys_app in Hk; apply in_app_or in Hk; destruct Hk as [Hk|Hk];
+      [apply (check_gates_exist_unit _ _ _ H1)|apply (check_gates_exist_unit _ _ _ H2)]; exact Hk.
+  Qed.
 End ReplaceSub.
